@@ -51,3 +51,17 @@ Theorem engine_ntriples_is_projection_of_nquads : forall cfg fe scfg raw d0 rule
   (forall y, In y lq -> exists x g, y = x ++ [32] ++ g /\ In x lt).
 Proof. exact engine_ntriples_is_projection. Qed.
 Print Assumptions engine_ntriples_is_projection_of_nquads.
+
+(* a statement of a referencing object map (joined row): its graph is generated from the CHILD row alone -- `spec_graph_line scfg rl csr`
+   reads only the child row `csr`, whatever the parent row holds under the same column names; the parent row gives the object only *)
+From Morph Require Import Model.Spec Proofs.RowSpecP Proofs.JoinRuleP.
+Theorem joined_statement_takes_its_graph_from_the_child_row : forall cfg fe scfg, cfg_agree cfg scfg -> c_nquads cfg = s_nquads scfg ->
+  forall rl q, pos_ok (r_sk rl) (r_sv rl) (r_stt rl) -> pos_ok (r_pk rl) (r_pv rl) TIri ->
+    (is_plain (r_sk q) = true /\ term_wf (r_sk q) (r_sv q) = true /\ (r_ott rl = TLit -> lits_neutral (segs_of (r_sk q) (r_sv q)) = true)) ->
+    (r_ld rl <> LDNone -> pos_ok (r_ldk rl) (r_ldv rl) TNone) -> graph_ok (c_nquads cfg) rl ->
+  forall x csr psr, row_agree scfg csr [] x (child_names rl) -> row_agree scfg psr parent_prefix x (parent_names q) ->
+  forall ls, (rdo ts <- mat_terms cfg fe (join_rule rl q) parent_prefix x;
+              rdo fs <- rflat_rows (finish_row cfg fe 0 rl) ts; extract_triples fs) = Ok ls ->
+    exists line t, ls = [line] /\ spec_graph_line scfg rl csr t = Some line.
+Proof. exact join_row_graph_from_child_row. Qed.
+Print Assumptions joined_statement_takes_its_graph_from_the_child_row.
